@@ -175,6 +175,8 @@ inline Dual eval(const Recipe &r, int i, ve::Env &env, const std::string &wrt)
         }
         case O_LOG:
             verif_assume(a.v > 0); // real logarithm: positive arguments only
+            if (r.n[nd.a].op == L_NUM && r.n[nd.a].q != 1 && verif_symbolic_exec() && !ve::g_numeric) // log(p/q) = log p - log q
+                verif_axiom(ve::Log(a.v) == ve::Log(verif_rational(r.n[nd.a].p, 1)) - ve::Log(verif_rational(r.n[nd.a].q, 1)));
             return Dual{ve::Log(a.v), a.d / a.v};
         case O_SINH: {
             double e = ve::Exp(a.v), m = ve::Exp(-a.v);
